@@ -21,7 +21,7 @@ import (
 	"verif/internal/wx"
 )
 
-var suite = vrt.NewSuite("C11", "C05's (path, data) cases, paths not ending in a bare descent, evaluated by Get, Has, First, FirstFound, Locate (unbounded and bounded), Expr.Walk, GetNodes and FirstNode on five representations of the same tree: simple, gen, typed Go slices and arrays ([]int64, []string, []map[string]any, [3]any), reflect.StructOf structs and pointers to them, and user Keyed/Indexed collections. Oracle: on every representation Has == (Get non-empty); First/FirstFound return a member of Get (the first when the order is defined); every path Locate/Walk report is normal, selects exactly one value, and together they select Get's multiset; results on every representation are canon-equal to the simple-data results; the reference evaluator arbitrates; plus an exhaustive matrix of container shapes x positions x fragments x continuations x representations. Non-trivial = Get non-empty and (>=2 fragments or a non-simple representation); distinct = distinct (path, data, representation)")
+var suite = vrt.NewSuite("C11", "C05's (path, data) cases, paths not ending in a bare descent, evaluated by Get, Has, First, FirstFound, Locate (unbounded and bounded), Expr.Walk, GetNodes and FirstNode on five representations of the same tree: simple, gen, typed Go slices and arrays ([]int64, []string, []map[string]any, [3]any), reflect.StructOf structs (every other one with an unexported field) and pointers to them, and user Keyed/Indexed collections. Oracle: on every representation Has == (Get non-empty); First/FirstFound return a member of Get (the first when the order is defined); every path Locate/Walk report is normal, selects exactly one value, and together they select Get's multiset; results on every representation are canon-equal to the simple-data results; the reference evaluator arbitrates; plus an exhaustive matrix of container shapes x positions x fragments x continuations x representations and a matrix of descents that start from several elements at once. Non-trivial = Get non-empty and (>=2 fragments or a non-simple representation); distinct = distinct (path, data, representation)")
 
 type Case struct {
 	Path jpx.Path `json:"path"`
